@@ -113,9 +113,9 @@ Lemma ensure_body_null : forall stack s k, S k -> settled s ->
 Proof.
   intros stack s k Hk Hs. unfold ensure_body.
   destruct (existsb (N.eqb k) stack).
-  { intros s' E. inversion E. subst. exists []. repeat split; assumption. }
+  { intros s' E. inversion E. subst. exists []. split; [reflexivity|]. split; [reflexivity | exact Hs]. }
   destruct (N.eqb (res_builtAt (get (st_mem s) k)) (st_epoch s)).
-  { intros s' E. inversion E. subst. exists []. repeat split; assumption. }
+  { intros s' E. inversion E. subst. exists []. split; [reflexivity|]. split; [reflexivity | exact Hs]. }
   pose proof (Hs k Hk) as Kk. unfold settled_at in Kk. destruct Kk as (K1 & K2 & K3 & K4 & K5 & K6).
   set (r0 := get (st_mem s) k) in *. fold (clean r0). set (r := clean r0). set (s1 := set_mem s k r).
   change (res_builtAt r) with (res_builtAt r0). change (res_sig r) with (res_sig r0).
